@@ -402,3 +402,36 @@ Proof.
   intros a a' l H H'.
   rewrite (fa_total_of_represents a l H), (fa_total_of_represents a' l H'). reflexivity.
 Qed.
+
+(* a missing element spans no coordinates (what pyarrow's builders, slice, take and
+   concat produce; asserted on every real array by the C13 / C17 runs) *)
+Lemma missing_spans_nothing : forall a i,
+  nulls_empty a = true -> i < la_len a ->
+  isna_at (la_valid a) (la_off a) i = true ->
+  getn (buffer_outer_offsets a) i = getn (buffer_outer_offsets a) (S i).
+Proof.
+  intros a i Hn Hi Hna. unfold nulls_empty in Hn. rewrite forallb_forall in Hn.
+  specialize (Hn i). rewrite in_seq in Hn. specialize (Hn ltac:(lia)).
+  rewrite Hna in Hn. cbn [negb orb] in Hn. apply Nat.eqb_eq in Hn. exact Hn.
+Qed.
+
+(* an element whose decoded coordinate list is empty spans no coordinates *)
+Lemma empty_spans_nothing : forall a i,
+  wf_listarr a = true -> i < la_len a -> elem_flat a i = [] ->
+  getn (buffer_outer_offsets a) i = getn (buffer_outer_offsets a) (S i).
+Proof.
+  intros a i Hwf Hi He. destruct (wf_outer a Hwf) as (L & M & B & _).
+  set (oo := buffer_outer_offsets a) in *.
+  assert (H1 : getn oo i <= getn oo (S i))
+    by (unfold getn; apply mono_nth; [exact M | lia | lia]).
+  assert (H2 : getn oo (S i) <= length (la_vals a)).
+  { pose proof (mono_le_last oo (getn oo (S i)) M) as H.
+    specialize (H ltac:(unfold getn; apply nth_In; lia)). lia. }
+  unfold elem_flat in He. fold oo in He.
+  assert (HL : length (slice (getn oo i) (getn oo (S i)) (buffer_values a)) = 0)
+    by (rewrite He; reflexivity).
+  rewrite slice_length in HL by exact H2. lia.
+Qed.
+
+Lemma la_guards_spec : forall a, la_guards a = nulls_empty a && even_outer a.
+Proof. reflexivity. Qed.
